@@ -44,6 +44,14 @@ pub fn gen(tier: &str, seed: u64, idx: u64, base: u64) -> Spec {
         ops.push(Op { kind: OpKind::Limited(Sched::Never), slot: 0, goal: g, fault: None });
         // follow-ups: always re-ask the same goal first, then a PRNG-drawn tail
         ops.push(Op { kind: OpKind::Solve, slot: rng.below(slots.len()), goal: g, fault: None });
+        // small worlds: sweep every goal afterwards (a poisoned entry may belong to another member of a cycle)
+        if goals.len() <= 14 && rng.coin(50) {
+            let mut all = goals.clone();
+            rng.shuffle(&mut all);
+            for goal in all {
+                ops.push(Op { kind: OpKind::Solve, slot: rng.below(slots.len()), goal, fault: None });
+            }
+        }
         for _ in 0..rng.range(0, 5) {
             let goal = if rng.coin(40) { g } else { *rng.pick(&goals) };
             let k = rng.below(10);
@@ -195,12 +203,64 @@ pub fn exec(spec: &Spec, r: &mut RunResult) {
                     match (&out, &fresh) {
                         (Out::Ans(a), Out::Ans(f)) => {
                             if let Err(why) = cmp::safe_approximation(a, f) {
+                                // control: the same history without any interruption; if it already gives this very
+                                // answer, the deviation is history dependence (C10's subject), not the interruption
+                                let control = {
+                                    let dbc = mk_db(&l, &spec.db);
+                                    let mut sc = make_slots(&spec.slots);
+                                    let mut last = None;
+                                    for (ci, cop) in spec.ops.iter().enumerate().take(oi + 1) {
+                                        let cg = match l.goals.get(cop.goal).and_then(|g| g.as_ref()) {
+                                            Some(g) => g.clone(),
+                                            None => continue,
+                                        };
+                                        let ck = match &cop.kind {
+                                            OpKind::Limited(_) => OpKind::Limited(Sched::Never),
+                                            k => k.clone(),
+                                        };
+                                        let (o, _) = run_op(&mut sc[cop.slot], &dbc, &cg, &ck, None, spec.budget);
+                                        if ci == oi {
+                                            last = Some(o);
+                                        }
+                                    }
+                                    last
+                                };
+                                if control.as_ref() == Some(&out) {
+                                    r.bump("c11.deviation_also_without_interruption_attributed_to_history", 1);
+                                    break;
+                                }
                                 bad.push(("later-limited-contradicts-full".into(), format!("follow-up #{} {:?} on `{}`: {}: `{}` vs fresh `{}`", oi, op.kind, spec.world.goals[op.goal], why, fmt_sol(a), fmt_sol(f))));
                             }
                         }
                         (o, _) => bad.push(("later-op-did-not-answer".into(), format!("follow-up #{} ended with {}", oi, fmt_out(o)))),
                     }
                 } else if out != fresh {
+                    // control: the same history WITHOUT any interruption. If it deviates from a fresh solver in the
+                    // same way, the interruption is not the cause (history dependence is C10's subject).
+                    let control = {
+                        let dbc = mk_db(&l, &spec.db);
+                        let mut sc = make_slots(&spec.slots);
+                        let mut last = None;
+                        for (ci, cop) in spec.ops.iter().enumerate().take(oi + 1) {
+                            let cg = match l.goals.get(cop.goal).and_then(|g| g.as_ref()) {
+                                Some(g) => g.clone(),
+                                None => continue,
+                            };
+                            let ck = match &cop.kind {
+                                OpKind::Limited(_) => OpKind::Limited(Sched::Never),
+                                k => k.clone(),
+                            };
+                            let (o, _) = run_op(&mut sc[cop.slot], &dbc, &cg, &ck, None, spec.budget);
+                            if ci == oi {
+                                last = Some(o);
+                            }
+                        }
+                        last
+                    };
+                    if control.as_ref() == Some(&out) {
+                        r.bump("c11.deviation_also_without_interruption_attributed_to_history", 1);
+                        break;
+                    }
                     bad.push((
                         "later-differs-from-fresh".into(),
                         format!("follow-up #{} {} {:?} on `{}` after {:?}: `{}` but a fresh solver answers `{}`", oi, cfg.name(), op.kind, spec.world.goals[op.goal], sched, fmt_out(&out), fmt_out(&fresh)),
@@ -215,7 +275,7 @@ pub fn exec(spec: &Spec, r: &mut RunResult) {
                 // record each class once per run, with the schedule that produced it
                 if !r.violations.iter().any(|v| v.class == class) {
                     let mut v = crate::run::Violation { class: class.clone(), detail: format!("schedule {:?}: {}", sched, detail), sig: None };
-                    v.sig = Some(format!("{}:{}", cfg0.kind(), class));
+                    v.sig = Some(format!("{}:{}{}", cfg0.kind(), class, static_tags(&spec.world, prim.goal)));
                     r.violations.push(v);
                     // remember the offending schedule for the replay spec
                     if r.pin.is_none() {
